@@ -33,7 +33,7 @@ func init() { props["C02"] = runC02 }
 const c02Fuel = "#4000"
 
 func runC02(e *env) {
-	e.res.Rule = "bundles from the command grammar (nesting depth<=3, 1-6 templates over 1-3 namespaces and 1-6 files, soydoc or header params, optional params, relative / fully-qualified / aliased / name= call forms, both param syntaxes, data=all / data=$e / data=[map literal], params overriding passed data, recursion on a decreasing int, small name pool so that lets and loop variables shadow params and each other, scope probes) x 2 data sets satisfying the declared params; rendered by robfig/soy, by the Coq tree-walker model and by the Coq lexical-environment Spec on the dumped AST. Oracle: implementation output = Spec output (bytes, ok/error). Non-trivial = uses at least one of let/foreach/for/call/switch/if; distinct by source text + data."
+	e.res.Rule = "bundles from the command grammar (nesting depth<=3, 1-6 templates over 1-3 namespaces and 1-6 files, soydoc or header params, optional params, relative / fully-qualified / aliased / name= call forms, both param syntaxes, data=all / data=$e / data=[map literal], params overriding passed data, recursion on a decreasing int, small name pool so that lets and loop variables shadow params and each other, scope probes) x 2 data sets satisfying the declared params; rendered by robfig/soy, by the Coq tree-walker model, by the Coq lexical-environment Spec (Spec/Cmd.v) and by the composed Spec (Spec/CmdIndep.v: expressions by C01's Spec/Expr.v) on the dumped AST; a third stream applies one textual mutation (tag deleted / duplicated / swapped, let or special character inserted, tag wrapped in a let) and keeps what still compiles. Oracle: implementation output = Spec output (bytes, ok/error; the composed Spec must agree with Spec/Cmd.v whenever it answers). Also per file: call names resolved by the model's resolve_name = names of the parsed CallNodes; every {literal} body = the text of a raw-text node. wf_registry is evaluated on every dumped registry. Non-trivial = uses at least one of let/foreach/for/call/switch/if; distinct by source text + data."
 	if e.replay != "" {
 		c02Replay(e)
 		return
@@ -41,6 +41,11 @@ func runC02(e *env) {
 	// two streams from one PRNG state: the historical C02 stream (shared generator defaults) and the scope stream
 	runProgCorrespondence(e, 600*e.scale, progOpts{depth: 3, directives: true}, "C02")
 	runProgCorrespondence(e, 1800*e.scale, progOpts{depth: 3, directives: true, scope: true}, "C02")
+	// third stream: generated bundles with one textual mutation (a tag deleted, duplicated, swapped with its neighbour,
+	// a let/print pair or a special character inserted at a tag boundary).  Whatever still compiles is a template built
+	// from the property's constructs: wf_registry (the hypothesis of exec_impl_spec) must hold of its tree and the
+	// oracle applies unchanged.
+	c02Mutated(e, 500*e.scale)
 	var hs []string
 	for _, k := range hx.SortedKeys(e.res.Histogram) {
 		if strings.HasPrefix(k, "feat:") {
@@ -67,16 +72,65 @@ func runProgCorrespondence(e *env, n int, o progOpts, prop string) {
 }
 
 func c02Bundle(e *env, files []srcFile, entry string, dataSets []data.Map, feats map[string]int, sample bool) {
+	c02BundleOpt(e, files, entry, dataSets, feats, sample, false)
+}
+
+var c02TagRe = regexp.MustCompile(`\{[^{}]*\}`)
+
+// c02Mutated: see runC02.
+func c02Mutated(e *env, n int) {
+	for i := 0; i < n; i++ {
+		files, entry, dataSets, feats := genBundle(e.rng, progOpts{depth: 3, directives: true, scope: true})
+		fi := e.rng.Intn(len(files))
+		txt := files[fi].Text
+		tags := c02TagRe.FindAllStringIndex(txt, -1)
+		if len(tags) < 3 {
+			continue
+		}
+		k := 1 + e.rng.Intn(len(tags)-2)
+		a, z := tags[k][0], tags[k][1]
+		var mut, kind string
+		switch e.rng.Intn(6) {
+		case 0:
+			mut, kind = txt[:a]+txt[z:], "delete-tag"
+		case 1:
+			mut, kind = txt[:z]+txt[a:z]+txt[z:], "duplicate-tag"
+		case 2:
+			nz := tags[k+1][1]
+			mut, kind = txt[:a]+txt[tags[k+1][0]:nz]+txt[z:tags[k+1][0]]+txt[a:z]+txt[nz:], "swap-tags"
+		case 3:
+			mut, kind = txt[:a]+"{let $zz: 1 /}{$zz}"+txt[a:], "insert-let"
+		case 4:
+			mut, kind = txt[:a]+e.rng.Pick([]string{"{sp}", "{nil}", "{lb}", "{literal} {x}\n {/literal}", "{debugger}"})+txt[a:], "insert-special"
+		default:
+			mut, kind = txt[:a]+"{let $zz}"+txt[a:z]+"{/let}{$zz}"+txt[z:], "wrap-in-let"
+		}
+		mfiles := append([]srcFile(nil), files...)
+		mfiles[fi] = srcFile{Name: files[fi].Name, Text: mut}
+		e.res.Histogram["mutated:"+kind]++
+		feats["mutated"] = 1
+		if c02BundleOpt(e, mfiles, entry, dataSets, feats, false, true) {
+			e.res.Histogram["mutated-compiles:"+kind]++
+		}
+	}
+}
+
+// c02BundleOpt checks one bundle; with mayNotCompile a compile error is counted, not reported.  Returns whether the
+// bundle compiled.
+func c02BundleOpt(e *env, files []srcFile, entry string, dataSets []data.Map, feats map[string]int, sample, mayNotCompile bool) bool {
 	b := soy.NewBundle()
 	for _, f := range files {
 		b.AddTemplateString(f.Name, f.Text)
 	}
 	reg, err := b.Compile()
+	if err != nil && mayNotCompile {
+		return false
+	}
 	if err != nil {
 		e.res.Histogram["compile-errors"]++
 		e.res.Count(fmt.Sprint(files), false, "compile-error")
 		e.res.Fail(hx.Violation{Kind: "oracle", What: "a generated valid bundle is rejected by the compiler", Case: progCase{Files: files, Template: entry}, Observed: err.Error()}, "")
-		return
+		return false
 	}
 	c02Names(e, files, reg)
 	tofu := soyhtml.NewTofu(reg)
@@ -86,12 +140,12 @@ func c02Bundle(e *env, files []srcFile, entry string, dataSets []data.Map, feats
 	rs := registrySexp(reg, ids)
 	if r := e.m.Call("load_registry", key, rs); len(r) == 0 || r[0] != "#1" {
 		e.res.Fail(hx.Violation{Kind: "mismatch", What: "model cannot load the registry", Case: progCase{Files: files, Template: entry}, Observed: fmt.Sprint(r)}, "")
-		return
+		return false
 	}
 	if r := e.m.Call("load_registry_spec", key, rs); len(r) == 0 || r[0] != "#1" {
 		// exec_impl_spec assumes wf_registry; the parser must only produce such trees
 		e.res.Fail(hx.Violation{Kind: "mismatch", What: "the dumped AST is not of the shape exec_impl_spec assumes (wf_registry = false)", Case: progCase{Files: files, Template: entry}, Observed: fmt.Sprint(r)}, "")
-		return
+		return false
 	} else if len(r) >= 3 {
 		// how much of the bundle the independent expression Spec (Spec/Expr.v) reads: expression roots of_node is defined on
 		cov, tot := atoiHash(r[1]), atoiHash(r[2])
@@ -214,6 +268,7 @@ func c02Bundle(e *env, files []srcFile, entry string, dataSets []data.Map, feats
 			e.res.Fail(hx.Violation{Kind: "mismatch", What: "model outcome " + r[0], Case: pc, Observed: hx.Q(out)}, "")
 		}
 	}
+	return true
 }
 
 // c02Replay re-runs exactly the case of a replay file.
